@@ -251,7 +251,32 @@ func (fc *fileCtx) recv(u *ast.UnaryExpr) error {
 			}
 		}
 		if !fc.inList(s) {
-			return fc.unsupported(u.Pos(), "channel receive in a statement that is not an element of a statement list (e.g. if/for/switch init)")
+			// the init statement of an if / switch / for runs exactly once, right when the
+			// enclosing statement starts: the hook can go in front of that statement
+			var outer ast.Stmt
+			switch o := fc.parents[s].(type) {
+			case *ast.IfStmt:
+				if o.Init == s {
+					outer = o
+				}
+			case *ast.SwitchStmt:
+				if o.Init == s {
+					outer = o
+				}
+			case *ast.TypeSwitchStmt:
+				if o.Init == s {
+					outer = o
+				}
+			case *ast.ForStmt:
+				if o.Init == s {
+					outer = o
+				}
+			}
+			if outer != nil && fc.inList(outer) {
+				fc.chanOp(outer, u.OpPos, "recv")
+				return nil
+			}
+			return fc.unsupported(u.Pos(), "channel receive in a statement that is not an element of a statement list (e.g. else-if init)")
 		}
 		fc.chanOp(s, u.OpPos, "recv")
 		return nil
